@@ -8,6 +8,10 @@
  * the message fields) are renamed away and supplied by env/utilctl_env.h on top of fd.h's own helpers and ghost record. */
 #define XVU_XCMC 1
 #define XVU_XCMC_FD 1
+/* SWITCH (one place for all xcmc / common_ctl jobs): ctl_derive_path() of /repo returns void today -- which is the defect the job
+ * ctl_derive_path reports (abort of the process / silently truncated path for a long XCM_CTL).  Once /repo has the repair with
+ * an int result (0, or -1 with ENAMETOOLONG), enable the next line: contracts/utilctl.h then attaches the int contract. */
+#define XVU_DERIVE_INT 1
 #include "prelude.h"
 #define XVU_GHOST_ONLY 1
 #include "env/utilctl_env.h"
